@@ -8,6 +8,7 @@ import Mathlib.Tactic.Positivity
 import Mathlib.Tactic.FinCases
 import Mathlib.Analysis.Real.Pi.Bounds
 import Mathlib.LinearAlgebra.Matrix.PosDef
+import Mathlib.Algebra.Order.Star.Real
 import Mathlib.Data.Matrix.ColumnRowPartitioned
 /-!
 # C06 — 7-parameter (Helmert) transformation: theorems about the regenerated `GenR.Transform.conform7`
@@ -596,6 +597,33 @@ def Jp (s : ℝ) (ρ x : ℝ × ℝ × ℝ) : Matrix (Fin 3) (Fin 7) ℝ :=
      -ρ.2.2 * x.1 + x.2.1 + ρ.1 * x.2.2, (1 + s) * x.2.2, 0, -((1 + s) * x.1), 0, 1, 0;
      ρ.2.1 * x.1 - ρ.1 * x.2.1 + x.2.2, -((1 + s) * x.2.1), (1 + s) * x.1, 0, 0, 0, 1]
 
+theorem mulVec3 (A : Matrix (Fin 3) (Fin 3) ℝ) (v : Fin 3 → ℝ) (i : Fin 3) :
+    A.mulVec v i = A i 0 * v 0 + A i 1 * v 1 + A i 2 * v 2 := by
+  simp [Matrix.mulVec, dotProduct, Fin.sum_univ_succ]; ring
+
+theorem mulVec7 (A : Matrix (Fin 3) (Fin 7) ℝ) (v : Fin 7 → ℝ) (i : Fin 3) :
+    A.mulVec v i = A i 0 * v 0 + A i 1 * v 1 + A i 2 * v 2 + A i 3 * v 3 + A i 4 * v 4
+      + A i 5 * v 5 + A i 6 * v 6 := by
+  simp only [Matrix.mulVec, dotProduct, Fin.sum_univ_succ, Fin.sum_univ_zero]
+  simp only [add_zero, add_assoc]
+  rfl
+
+theorem AVAt_apply (A V : Matrix (Fin 3) (Fin 3) ℝ) (i j : Fin 3) :
+    (A * V * A.transpose) i j
+      = (A i 0 * V 0 0 + A i 1 * V 1 0 + A i 2 * V 2 0) * A j 0
+        + (A i 0 * V 0 1 + A i 1 * V 1 1 + A i 2 * V 2 1) * A j 1
+        + (A i 0 * V 0 2 + A i 1 * V 1 2 + A i 2 * V 2 2) * A j 2 := by
+  simp [Matrix.mul_apply, Fin.sum_univ_succ]; ring
+
+theorem BDBt_apply (B : Matrix (Fin 3) (Fin 7) ℝ) (d : Fin 7 → ℝ) (i j : Fin 3) :
+    (B * Matrix.diagonal d * B.transpose) i j
+      = B i 0 * d 0 * B j 0 + B i 1 * d 1 * B j 1 + B i 2 * d 2 * B j 2 + B i 3 * d 3 * B j 3
+        + B i 4 * d 4 * B j 4 + B i 5 * d 5 * B j 5 + B i 6 * d 6 * B j 6 := by
+  rw [Matrix.mul_apply]
+  simp only [Matrix.mul_diagonal, Matrix.transpose_apply, Fin.sum_univ_succ,
+    Fin.sum_univ_zero, add_zero, add_assoc]
+  rfl
+
 /-- the terms of second and higher order in the increments -/
 def remainder (s δs : ℝ) (ρ δρ x δx : ℝ × ℝ × ℝ) : ℝ × ℝ × ℝ :=
   ((1 + s + δs) * (δρ.2.2 * δx.2.1 - δρ.2.1 * δx.2.2)
@@ -613,9 +641,8 @@ theorem jacobian (t δt : ℝ × ℝ × ℝ) (s δs : ℝ) (ρ δρ x δx : ℝ 
         + (Jp s ρ x).mulVec ![δs, δρ.1, δρ.2.1, δρ.2.2, δt.1, δt.2.1, δt.2.2]
         + vec3 (remainder s δs ρ δρ x δx) := by
   funext i
-  fin_cases i <;>
-    simp [vec3, helmert, Jx, Jp, remainder, Matrix.mulVec, dotProduct, Fin.sum_univ_succ] <;>
-    ring
+  simp only [Pi.add_apply, mulVec3, mulVec7]
+  fin_cases i <;> simp [vec3, helmert, Jx, Jp, remainder] <;> ring
 
 /-- the variances of the seven parameters in the units of the formula: `(sd_sc/10⁶)²`,
 `radians(sd_r/3600)²`, `sd_t²` -/
@@ -653,11 +680,174 @@ theorem vcv_is_JQJt (x y z : ℝ) (p : Transformation) (sd : TransformationSD) (
   · simp only [apply7, helmert, transl, rho, arcsec, PyR.pyfloat, PyR.radians]; ring
   · simp only [apply7, helmert, transl, rho, arcsec, PyR.pyfloat, PyR.radians]; ring
   · simp only [apply7, helmert, transl, rho, arcsec, PyR.pyfloat, PyR.radians]; ring
-  · ext i j
-    fin_cases i <;> fin_cases j <;>
-      simp [propagated, mat33, Jx, Jp, Qp, Matrix.mul_apply, Matrix.mul_diagonal,
-        Fin.sum_univ_succ, rho, arcsec] <;>
-      ring
+  · simp only [propagated, Qp, rho, arcsec, PyR.radians, PyR.pown]
+    generalize p.sc / 1000000 = s
+    generalize round9 p.rx / 3600 * (Real.pi / 180) = ρx
+    generalize round9 p.ry / 3600 * (Real.pi / 180) = ρy
+    generalize round9 p.rz / 3600 * (Real.pi / 180) = ρz
+    ext i j
+    simp only [Matrix.add_apply, AVAt_apply, BDBt_apply]
+    fin_cases i <;> fin_cases j <;> simp [mat33, Jx, Jp] <;> ring
+
+theorem propagated_eq_JQJt (p : Transformation) (sd : TransformationSD) (x : ℝ × ℝ × ℝ) (V : T9) :
+    propagated p sd x V
+      = Matrix.fromCols (Jx (p.sc / 1000000) (rho p)) (Jp (p.sc / 1000000) (rho p) x)
+        * Matrix.fromBlocks (mat33 V) 0 0 (Matrix.diagonal (Qp sd))
+        * (Matrix.fromCols (Jx (p.sc / 1000000) (rho p)) (Jp (p.sc / 1000000) (rho p) x)).transpose :=
+  (JQJt_blocks _ _ _ _).symm
+
+/-! ### symmetry and positive semi-definiteness -/
+
+theorem Qp_nonneg (sd : TransformationSD) : ∀ i, 0 ≤ Qp sd i := by
+  intro i
+  fin_cases i <;> simp [Qp] <;> positivity
+
+theorem AVAt_isSymm {m : Type} [Fintype m] (A : Matrix (Fin 3) m ℝ) (V : Matrix m m ℝ)
+    (h : V.IsSymm) : (A * V * A.transpose).IsSymm := by
+  unfold Matrix.IsSymm
+  rw [Matrix.transpose_mul, Matrix.transpose_mul, Matrix.transpose_transpose, h.eq, Matrix.mul_assoc]
+
+theorem propagated_isSymm (p : Transformation) (sd : TransformationSD) (x : ℝ × ℝ × ℝ) (V : T9)
+    (h : (mat33 V).IsSymm) : (propagated p sd x V).IsSymm :=
+  (AVAt_isSymm _ _ h).add (AVAt_isSymm _ _ (Matrix.isSymm_diagonal _))
+
+theorem propagated_posSemidef (p : Transformation) (sd : TransformationSD) (x : ℝ × ℝ × ℝ) (V : T9)
+    (h : (mat33 V).PosSemidef) : (propagated p sd x V).PosSemidef := by
+  have h1 := h.mul_mul_conjTranspose_same (Jx (p.sc / 1000000) (rho p))
+  have h2 := (Matrix.PosSemidef.diagonal (d := Qp sd) (Qp_nonneg sd)).mul_mul_conjTranspose_same
+    (Jp (p.sc / 1000000) (rho p) x)
+  rw [Matrix.conjTranspose_eq_transpose_of_trivial] at h1 h2
+  exact h1.add h2
+
+/-- the quadratic form of `J·Q·Jᵀ` at `w` is the quadratic form of `Q` at `Jᵀ·w` -/
+theorem quadratic_form_identity (A : Matrix (Fin 3) (Fin 3) ℝ) (B : Matrix (Fin 3) (Fin 7) ℝ)
+    (V : Matrix (Fin 3) (Fin 3) ℝ) (d : Fin 7 → ℝ) (w : Fin 3 → ℝ) :
+    w ⬝ᵥ (A * V * A.transpose + B * Matrix.diagonal d * B.transpose).mulVec w
+      = (A.transpose.mulVec w) ⬝ᵥ V.mulVec (A.transpose.mulVec w)
+        + ∑ k, d k * (B.transpose.mulVec w k) ^ 2 := by
+  rw [Matrix.add_mulVec, dotProduct_add]
+  congr 1
+  · rw [← Matrix.mulVec_mulVec, ← Matrix.mulVec_mulVec, Matrix.dotProduct_mulVec,
+      Matrix.mulVec_transpose]
+  · rw [← Matrix.mulVec_mulVec, ← Matrix.mulVec_mulVec, Matrix.dotProduct_mulVec,
+      ← Matrix.mulVec_transpose]
+    unfold dotProduct
+    apply Finset.sum_congr rfl
+    intro k _
+    rw [Matrix.mulVec_diagonal]; ring
+
+/-! ### … in terms of 9-tuples -/
+
+def Sym9 (V : T9) : Prop :=
+  V.2.1 = V.2.2.2.1 ∧ V.2.2.1 = V.2.2.2.2.2.2.1 ∧ V.2.2.2.2.2.1 = V.2.2.2.2.2.2.2.1
+
+/-- `wᵀ·V·w` for `w = (a, b, c)` -/
+def quad9 (V : T9) (a b c : ℝ) : ℝ :=
+  a * (V.1 * a + V.2.1 * b + V.2.2.1 * c) + b * (V.2.2.2.1 * a + V.2.2.2.2.1 * b + V.2.2.2.2.2.1 * c)
+    + c * (V.2.2.2.2.2.2.1 * a + V.2.2.2.2.2.2.2.1 * b + V.2.2.2.2.2.2.2.2 * c)
+
+def PSD9 (V : T9) : Prop := Sym9 V ∧ ∀ a b c, 0 ≤ quad9 V a b c
+
+theorem sym9_iff (V : T9) : Sym9 V ↔ (mat33 V).IsSymm := by
+  rw [Matrix.IsSymm.ext_iff]
+  constructor
+  · rintro ⟨h1, h2, h3⟩ i j
+    fin_cases i <;> fin_cases j <;> simp [mat33, h1, h2, h3]
+  · intro h
+    refine ⟨?_, ?_, ?_⟩
+    · simpa [mat33] using h 1 0
+    · simpa [mat33] using h 2 0
+    · simpa [mat33] using h 2 1
+
+theorem quad9_eq (V : T9) (w : Fin 3 → ℝ) :
+    w ⬝ᵥ (mat33 V).mulVec w = quad9 V (w 0) (w 1) (w 2) := by
+  simp [dotProduct, Fin.sum_univ_succ, mulVec3, mat33, quad9]
+  ring
+
+theorem psd9_iff (V : T9) : PSD9 V ↔ (mat33 V).PosSemidef := by
+  rw [Matrix.posSemidef_iff_dotProduct_mulVec, Matrix.IsHermitian,
+    Matrix.conjTranspose_eq_transpose_of_trivial, PSD9, sym9_iff]
+  apply and_congr Iff.rfl
+  constructor
+  · intro h w
+    rw [star_trivial, quad9_eq]; exact h _ _ _
+  · intro h a b c
+    have := h ![a, b, c]
+    rw [star_trivial, quad9_eq] at this
+    simpa using this
+
+/-- **C06.7** the returned covariance is symmetric when the input is, and positive semi-definite
+when the input is (for every `w`, `wᵀ(JQJᵀ)w = (Jᵀw)ᵀQ(Jᵀw) ≥ 0`) -/
+theorem vcv_sym_psd (x y z : ℝ) (p : Transformation) (sd : TransformationSD) (V : T9)
+    (h : RotsOK p) (hsd : p.tf_sd = some sd) :
+    ∃ W, conform7 x y z p (some V)
+        = .ok ((apply7 p (x, y, z)).1, (apply7 p (x, y, z)).2.1, (apply7 p (x, y, z)).2.2, some W) ∧
+      (Sym9 V → Sym9 W) ∧ (PSD9 V → PSD9 W) ∧
+      (∀ a b c, quad9 W a b c
+        = (fun u => quad9 V (u 0) (u 1) (u 2))
+            ((Jx (p.sc / 1000000) (rho p)).transpose.mulVec ![a, b, c])
+          + ∑ k, Qp sd k * ((Jp (p.sc / 1000000) (rho p) (x, y, z)).transpose.mulVec ![a, b, c] k) ^ 2) := by
+  obtain ⟨W, hW, hm⟩ := vcv_is_JQJt x y z p sd V h hsd
+  refine ⟨W, hW, ?_, ?_, ?_⟩
+  · intro hs
+    rw [sym9_iff] at hs ⊢
+    rw [hm]; exact propagated_isSymm p sd _ V hs
+  · intro hs
+    rw [psd9_iff] at hs ⊢
+    rw [hm]; exact propagated_posSemidef p sd _ V hs
+  · intro a b c
+    have e := quad9_eq W ![a, b, c]
+    rw [hm, propagated, quadratic_form_identity, quad9_eq] at e
+    simpa using e.symm
+
+/-- **C06.8** whatever `conform7` returns, the covariance slot is filled iff an input covariance
+was supplied and the parameter set carries uncertainties -/
+theorem vcv_returned_iff (x y z : ℝ) (p : Transformation) (vcv : Option T9)
+    (r : ℝ × ℝ × ℝ × Option T9) (h : conform7 x y z p vcv = .ok r) :
+    r.2.2.2 ≠ none ↔ (vcv ≠ none ∧ p.tf_sd ≠ none) := by
+  unfold conform7 at h
+  rcases hp2dec_ok_or_ValueError (p.rx / 10000) with ⟨a, ha⟩ | ha
+  · rcases hp2dec_ok_or_ValueError (p.ry / 10000) with ⟨b, hb⟩ | hb
+    · rcases hp2dec_ok_or_ValueError (p.rz / 10000) with ⟨c, hc⟩ | hc
+      · simp only [ha, hb, hc, Except.bind] at h
+        cases hsd : p.tf_sd <;> cases vcv <;> simp only [hsd] at h <;> cases h <;> simp
+      · simp only [ha, hb, hc, Except.bind] at h; cases h
+    · simp only [ha, hb, Except.bind] at h; cases h
+  · simp only [ha, Except.bind] at h; cases h
+
+/-- … and for rotations below one arc-minute a result is returned, so: a covariance is returned iff
+`vcv ≠ None` and `trans.tf_sd` is a `TransformationSD` -/
+theorem vcv_some_iff (x y z : ℝ) (p : Transformation) (vcv : Option T9) (h : RotsOK p) :
+    (∃ X Y Z W, conform7 x y z p vcv = .ok (X, Y, Z, some W)) ↔ (vcv ≠ none ∧ p.tf_sd ≠ none) := by
+  obtain ⟨v, hv⟩ := conform7_formula x y z p vcv h
+  have key := vcv_returned_iff x y z p vcv _ hv
+  constructor
+  · rintro ⟨X, Y, Z, W, hW⟩
+    rw [hv] at hW
+    have : v = some W := by
+      have := Except.ok.inj hW
+      simp only [Prod.mk.injEq] at this
+      exact this.2.2.2
+    exact key.1 (by simp [this])
+  · intro hh
+    have := key.2 hh
+    obtain ⟨W, hW⟩ := Option.ne_none_iff_exists'.1 this
+    exact ⟨_, _, _, W, by rw [hv]; simp only at hW; rw [hW]⟩
+
+/-! ## Negation of a parameter set -/
+
+/-- `−p`: every parameter and rate negated, labels swapped, same epoch, same `tf_sd` -/
+theorem neg_is_negation (p : Transformation) :
+    let q := Transformation.neg p
+    (q.tx = -p.tx ∧ q.ty = -p.ty ∧ q.tz = -p.tz ∧ q.sc = -p.sc ∧ q.rx = -p.rx ∧ q.ry = -p.ry ∧
+      q.rz = -p.rz) ∧
+    (q.d_tx = -p.d_tx ∧ q.d_ty = -p.d_ty ∧ q.d_tz = -p.d_tz ∧ q.d_sc = -p.d_sc ∧ q.d_rx = -p.d_rx ∧
+      q.d_ry = -p.d_ry ∧ q.d_rz = -p.d_rz) ∧
+    q.from_datum = p.to_datum ∧ q.to_datum = p.from_datum ∧ q.ref_epoch = p.ref_epoch ∧
+    q.tf_sd = p.tf_sd :=
+  ⟨⟨rfl, rfl, rfl, rfl, rfl, rfl, rfl⟩, ⟨rfl, rfl, rfl, rfl, rfl, rfl, rfl⟩, rfl, rfl, rfl, rfl⟩
+
+example : gda94_to_gda2020.tf_sd = some gda94_to_gda2020_sd := rfl
 
 end
 
